@@ -312,6 +312,7 @@ class Bits:
     line: int = 0
     owner: str = ""
     rel: str = ""
+    partial: bool = False     # on some branch the decoder substitutes a constant for the wire value
 
 
 @dataclass
@@ -403,10 +404,18 @@ class ReaderEval:
                     envs.append(e2)
                 for k in set().union(*[set(e) for e in envs]):
                     vals = [e[k] for e in envs if k in e]
-                    v0 = vals[0]
-                    for v in vals[1:]:
-                        if isinstance(v0, Bits) and isinstance(v, Bits) and (v0.lsb, v0.width) != (v.lsb, v.width):
+                    changed = [v for e, v in zip(envs, [e.get(k) for e in envs]) if e.get(k) is not env.get(k)]
+                    if not changed:
+                        continue
+                    bits = [v for v in changed if isinstance(v, Bits)]
+                    v0 = bits[0] if bits else changed[0]
+                    for v in bits[1:]:
+                        if (v0.lsb, v0.width) != (v.lsb, v.width):
                             raise AnalysisError(f"decoder {fi.qual}: branch-dependent position for {k}")
+                    if bits and len(bits) != len(changed):
+                        # some branch replaces the wire value by something else (a constant): the field is not decoded there
+                        v0 = Bits(v0.lsb, v0.width, v0.kind, v0.signed, v0.scale, v0.msb, v0.line, v0.owner, v0.rel)
+                        v0.partial = True
                     env[k] = v0
                 continue
             if isinstance(st, (ast.Assign, ast.AnnAssign)):
